@@ -998,6 +998,30 @@ def oracle_case(case, hit):
     if r is not None:
       vals = ([case['value']] if 'value' in case else []) + values_for(case['c'], _R(), 30) + values_for(case['b'], _R(), 30)
       check_extend(c0, b, r, vals, hit, dict(op=op, c=case['c'], b=case['b']))
+  elif op == 'form':
+    t = T()
+    def remake(tree):
+      """the constructor form named in the case, for the child side"""
+      f = case.get('form', '')
+      if tree[0] == 6 and 'element' in case:
+        return dict(tuple_forms(case['element'], case['n']))[f]()
+      if tree[0] == 7 and f.startswith('Dict') and tree[1]:
+        fs = tree[1][0]; keys = [''.join(chr(c) for c in kf[0][1]) for kf in fs]
+        return dict(dict_forms(fs[0][1], keys))[f]()
+      return build(tree)
+    vals = ([case['value']] if 'value' in case else [])
+    if 'c' in case:
+      child, base = remake(case['c']), build(case['b'])
+      vals = vals + values_for(case['c'], _R(), 40) + values_for(case['b'], _R(), 40)
+      out, r = impl_extend(child, base)
+      if r is not None:
+        check_extend(remake(case['c']), build(case['b']), r, vals, hit, {k: v for k, v in case.items() if k != 'value'})
+    else:
+      a_is_child = case['a'][0] == case['b'][0] and 'element' in case and case['a'][1] and all(e == case['a'][1][0] for e in case['a'][1])
+      a = remake(case['a']) if a_is_child else build(case['a'])
+      b = build(case['b']) if a_is_child else remake(case['b'])
+      vals = vals + values_for(case['a'], _R(), 40) + values_for(case['b'], _R(), 40)
+      check_compat(a, b, vals, hit, {k: v for k, v in case.items() if k != 'value'})
   elif op == 'sequence':
     child, base = build(case['c']), build(case['b'])
     vals = values_for(case['c'], _R(), 30) + values_for(case['b'], _R(), 30) + ([case['value']] if 'value' in case else [])
@@ -1172,6 +1196,149 @@ def run_sequence(ctx, label, ct, bt, vals, flags, add_case, hit, rng):
   return n
 
 # ------------------------------------------------------------------------------------------------
+# constructor forms and shared sub-spec objects.  The tree model has no sharing: Tuple(spec, size=N) makes N element
+# fields that hold ONE value-spec object, a Dict may be given the same spec object for two keys.  Sharing is
+# unobservable for apply / is_compatible, but extend mutates the shared object once per position.  So every form
+# goes (a) through the normal path as its unshared twin (model + code + oracle) and (b) as the real shared object
+# through the containment oracle, apply / is_compatible against the model, and a comparison with the twin.
+
+def _I(lo=None, hi=None, n=0, d=None): return [1, _opt(lo), _opt(hi), [n, [V(d)] if d is not None else [], 0]]
+POSITION_CONSTRAINTS = [
+    ('Int()', lambda: _I()), ('Int(min=0)', lambda: _I(0, None)), ('Int(max=5)', lambda: _I(None, 5)),
+    ('Int(1..2)', lambda: _I(1, 2)), ('Int().noneable()', lambda: _I(n=1)), ('Enum([1,2])', lambda: _enum(1, 2)),
+    ('Float(max=2)', lambda: [2, [], [128], _m0()]), ('Object(B)', lambda: [8, [0, 0], _m0()]),
+]
+ELEMENT_SPECS = [
+    ('Int()', lambda: _I()), ('Int(0..5)', lambda: _I(0, 5)), ('Int().noneable()', lambda: _I(n=1)), ('Int(default=1)', lambda: _I(d=1)),
+    ('Enum([1,2,5])', lambda: _enum(1, 2, 5)), ('Float()', lambda: [2, [], [], _m0()]), ('Object(D)', lambda: [8, [0, 0, 0], _m0()]),
+    ('Int().freeze(1)', lambda: [1, [], [], [0, [V(1)], 1]]),
+]
+POSITION_VALUES = [V(-1), V(0), V(1), V(2), V(5), V(6), V(10), [0], V(1.0), V(2.5), V('a'), V(D(1)), V(B(1)), V(A(1))]
+
+def tuple_forms(et, n):
+  """(form name, constructor -> real Tuple spec with n elements of element tree et)"""
+  t = T()
+  def shared_list():
+    x = build(et); return t.Tuple([x] * n)
+  return [
+      ('Tuple([e1..eN])', lambda: t.Tuple([build(et) for _ in range(n)])),
+      ('Tuple(e, size=N)', lambda: t.Tuple(build(et), size=n)),
+      ('Tuple(e, min_size=N, max_size=N)', lambda: t.Tuple(build(et), min_size=n, max_size=n)),
+      ('Tuple([x]*N) shared object', shared_list),
+  ]
+
+def dict_forms(et, keys):
+  t = T()
+  def shared():
+    x = build(et); return t.Dict([(k, x) for k in keys])
+  return [
+      ('Dict([(k, spec)...])', lambda: t.Dict([(k, build(et)) for k in keys])),
+      ('Dict({k: spec})', lambda: t.Dict({k: build(et) for k in keys})),
+      ('Dict fields sharing one spec object', shared),
+  ]
+
+def form_sweep(ctx, flags, add_case, hit, rng):
+  """child constructor form x base per-position constraints, through the oracle on the real (possibly shared) objects."""
+  import time
+  t = T()
+  nforms = ndiff = skipped = 0
+  twin_pairs = []
+  full = ctx.thorough
+  t_end = time.time() + (600 if full else 30)      # wall-clock budget; skipped work is reported
+  for n in (2, 3):
+    base_combos = list(itertools.product(range(len(POSITION_CONSTRAINTS)), repeat=n))
+    if n == 3 and not full: base_combos = rng.sample(base_combos, 16)
+    for ename, emk in ELEMENT_SPECS:
+      et = emk()
+      vals = [[7, list(c)] for c in itertools.product(POSITION_VALUES, repeat=n)] if n == 2 else \
+             [[7, [rng.choice(POSITION_VALUES) for _ in range(n)]] for _ in range(60 if full else 30)] + [[7, [V(1)] * n], [7, [V(10)] * n]]
+      if n == 2 and not full: vals = rng.sample(vals, 36) + [[7, [V(1), V(10)]], [7, [V(10), V(1)]], [7, [V(1), [0]]], [7, [[0], V(1)]]]
+      bases = []
+      for combo in base_combos:
+        if not full and n == 2 and rng.random() < 0.35: continue
+        bases.append(('Tuple([%s])' % ', '.join(POSITION_CONSTRAINTS[i][0] for i in combo),
+                      [6, [POSITION_CONSTRAINTS[i][1]() for i in combo], n, [n], _m0()]))
+      # variable-length bases
+      for cname_, cmk in POSITION_CONSTRAINTS[:6]:
+        bases.append(('Tuple(%s, min_size=1)' % cname_, [6, [cmk()], 1, [], _m0()]))
+        bases.append(('Tuple(%s, max_size=%d)' % (cname_, n), [6, [cmk()], 0, [n], _m0()]))
+      for fname, fmk in tuple_forms(et, n):
+        ctx.hist('constructor_forms', fname)
+        for bname, bt in bases:
+          if time.time() > t_end: skipped += 1; continue
+          bt = canon(bt)
+          if bt is None: continue
+          try:
+            child0 = fmk()
+          except (TypeError, ValueError, KeyError):
+            continue
+          ct = safe_render(child0)
+          if not isinstance(ct, list): continue
+          nforms += 1
+          label = '%s of %s extends %s' % (fname, ename, bname)
+          twin_pairs.append((label, ct, bt, vals))
+          base = build(bt)
+          # (b) the real object: is_compatible / apply agree with the model (sharing is unobservable there)
+          add_case([flags, 1, ct, bt], impl_compat(child0, base), dict(op='compat', a=ct, b=bt, form=fname), 'form-compat')
+          add_case([flags, 1, bt, ct], impl_compat(base, child0), dict(op='compat', a=bt, b=ct, form=fname), 'form-compat')
+          for vt in vals[:6]:
+            o, _, _ = impl_apply(child0, vt, False)
+            add_case([flags, 0, 0, ct, vt], o, dict(op='apply', spec=ct, value=vt, partial=0, form=fname), 'form-apply')
+          check_compat(child0, base, vals, hit, dict(op='form', form=fname, element=et, n=n, a=ct, b=bt))
+          check_compat(base, child0, vals, hit, dict(op='form', form=fname, element=et, n=n, a=bt, b=ct))
+          # extend on the real object, oracle on the real result
+          out, r = impl_extend(child0, base)
+          twin_out, twin_r = impl_extend(build(ct), build(bt))
+          if out != twin_out:
+            ndiff += 1
+            ctx.hist('shared_objects', 'extend result differs from the unshared twin (%s)' % fname)
+          if r is not None:
+            check_extend(fmk(), build(bt), r, vals, hit, dict(op='form', form=fname, element=et, n=n, c=ct, b=bt))
+  # Dict forms: two or three keys, one element spec, base with per-key constraints
+  keys = ['a', 'b']
+  for ename, emk in ELEMENT_SPECS:
+    et = emk()
+    dvals = [[8, [[S('a'), x], [S('b'), y]]] for x in POSITION_VALUES for y in POSITION_VALUES]
+    if not full: dvals = rng.sample(dvals, 36) + [[8, [[S('a'), V(1)], [S('b'), V(10)]]], [8, [[S('a'), V(10)], [S('b'), V(1)]]]]
+    for fname, fmk in dict_forms(et, keys):
+      ctx.hist('constructor_forms', fname)
+      for i, j in itertools.product(range(len(POSITION_CONSTRAINTS)), repeat=2):
+        if not full and rng.random() < 0.4: continue
+        bt = canon([7, [[[[0, S('a')], POSITION_CONSTRAINTS[i][1]()], [[0, S('b')], POSITION_CONSTRAINTS[j][1]()]]], _m0()])
+        if bt is None: continue
+        try:
+          child0 = fmk()
+        except (TypeError, ValueError, KeyError):
+          continue
+        ct = safe_render(child0)
+        if not isinstance(ct, list): continue
+        nforms += 1
+        bname = 'Dict(a: %s, b: %s)' % (POSITION_CONSTRAINTS[i][0], POSITION_CONSTRAINTS[j][0])
+        twin_pairs.append(('%s of %s extends %s' % (fname, ename, bname), ct, bt, dvals))
+        base = build(bt)
+        add_case([flags, 1, ct, bt], impl_compat(child0, base), dict(op='compat', a=ct, b=bt, form=fname), 'form-compat')
+        check_compat(child0, base, dvals, hit, dict(op='form', form=fname, a=ct, b=bt))
+        out, r = impl_extend(child0, base)
+        twin_out, twin_r = impl_extend(build(ct), build(bt))
+        if out != twin_out:
+          ndiff += 1
+          ctx.hist('shared_objects', 'extend result differs from the unshared twin (%s)' % fname)
+        if r is not None:
+          check_extend(fmk(), build(bt), r, dvals, hit, dict(op='form', form=fname, c=ct, b=bt))
+  # List(spec, size=N) and the other size spellings render to the same state: one model case each
+  for n in (0, 1, 2):
+    for mk in (lambda: t.List(t.Int(), size=n), lambda: t.List(t.Int(), min_size=n, max_size=n)):
+      ct = safe_render(mk())
+      for k in range(4):
+        o, _, _ = impl_apply(mk(), _seq_value('list', k), False)
+        add_case([flags, 0, 0, ct, _seq_value('list', k)], o, dict(op='apply', spec=ct, value=_seq_value('list', k), partial=0), 'form-apply')
+  ctx.extra['constructor_forms'] = dict(instances=nforms, skipped_for_time=skipped, extend_results_differing_from_unshared_twin=ndiff,
+      what='Tuple([e..]) / Tuple(e, size=N) / Tuple(e, min_size=N, max_size=N) / Tuple([x]*N) with one shared object, N in {2,3}; '
+           'Dict from a list / from a dict / with one spec object under two keys; List(size=N); child element specs x base per-position constraints '
+           '(range, noneable, Enum, Float, class) at every position; oracle on the real (shared) objects, model on the unshared twins')
+  return twin_pairs
+
+# ------------------------------------------------------------------------------------------------
 def nontrivial_spec(t):
   k = t[0]
   n, d, fz = _m(t)
@@ -1246,6 +1413,8 @@ def run(ctx):
   ctx.extra['bound_sweep'] = dict(pairs=len(bsweep), what='every child bound x every base bound: sizes min in {0,1,2,5} x max in {None,0,1,2,5} for '
                                   'List, List in a Dict field, List of List, Tuple, List of Tuple (values of every length 0..6); Int/Float ranges with bounds in '
                                   '{None,-2,-1,0,1,2,5}; children with and without a default', exhaustive_on_grid=bool(ctx.thorough))
+  form_twins = form_sweep(ctx, flags, add_case, hit, rng)
+  bsweep = bsweep + form_twins
   extra_vals = {}
   for label, ct, bt, vs_ in bsweep:
     extra_vals[(trlib.to_line(ct), trlib.to_line(bt))] = vs_
@@ -1275,7 +1444,7 @@ def run(ctx):
         noracle += check_extend(build(xt), build(yt), r, rv, hit, dict(op='extend', c=xt, b=yt))
   # ---- operation sequences on the same spec objects ------------------------------------------------------
   nseq = nsteps = 0
-  seq_src = [(l, c, b, v) for l, c, b, v in bsweep]
+  seq_src = [(l, c, b, v) for l, c, b, v in bsweep if ' extends ' not in l]
   for at, bt in pairs[:ctx.scale(500, 3000)]:
     seq_src.append(('random', at, bt, values_for(at, rng, 10) + values_for(bt, rng, 10)))
     seq_src.append(('random', bt, at, values_for(at, rng, 10) + values_for(bt, rng, 10)))
